@@ -231,6 +231,70 @@ func c19Exec(cs fw.Case) *fw.Fail {
 			}
 		}
 	}
+	// a Prog that has been listed and traced once is re-used for another program (exported Load): its trace is the
+	// trace of a Prog freshly loaded from the same dump
+	if d0, ok := dumpOf(src); ok {
+		var fail *fw.Fail
+		func() {
+			defer func() {
+				if x := recover(); x != nil {
+					fail = fw.Failf("options never make a call panic", "trace after Load into a Prog that was listed before panics: %v", x)
+				}
+			}()
+			var outU, outF, outT1, outT2 bytes.Buffer
+			used, err := bcl.Parse([]byte("print \"other\" + 1\ndef zz \"n\" { q = 2.5; r = \"rr\" + q }\nbind zz -> struct"), "input", bcl.OptOutput(&outU), bcl.OptLogger(&bytes.Buffer{}), bcl.OptDisasm(true))
+			if err != nil {
+				return
+			}
+			bcl.Execute(used, bcl.OptTrace(true), bcl.OptOutput(&outT1))
+			if used.Load(bytes.NewReader(d0)) != nil {
+				return
+			}
+			fresh, ferr := bcl.LoadProg(bytes.NewReader(d0), "input", bcl.OptOutput(&outF), bcl.OptLogger(&bytes.Buffer{}))
+			if ferr != nil {
+				return
+			}
+			outU.Reset()
+			outT1.Reset()
+			bl1, bi1, e1 := bcl.Execute(used, bcl.OptTrace(true), bcl.OptOutput(&outT1))
+			bl2, bi2, e2 := bcl.Execute(fresh, bcl.OptTrace(true), bcl.OptOutput(&outT2))
+			a := fmt.Sprintf("out=%q trace=%q err=%v blocks=%s binding=%s", outU.String(), outT1.String(), e1, impl.BlocksStr(bl1), impl.BindingStr(bi1))
+			b := fmt.Sprintf("out=%q trace=%q err=%v blocks=%s binding=%s", outF.String(), outT2.String(), e2, impl.BlocksStr(bl2), impl.BindingStr(bi2))
+			if a != b {
+				fail = fw.Failf("traced run of a dump loaded into a previously listed Prog = traced run of the same dump loaded freshly: "+fw.Trunc(b, 400), "%s", fw.Trunc(a, 400))
+			}
+		}()
+		if fail != nil {
+			return fail
+		}
+		// an output writer that fails after a few bytes: with and without trace the run gives the same blocks, binding and error
+		for _, room := range []int{0, 7, 60} {
+			w1, w2 := &limitedWriter{room: room}, &limitedWriter{room: room}
+			p1, e1 := bcl.Parse([]byte(src), "input", bcl.OptOutput(w1), bcl.OptLogger(&bytes.Buffer{}))
+			p2, e2 := bcl.Parse([]byte(src), "input", bcl.OptOutput(w2), bcl.OptLogger(&bytes.Buffer{}))
+			if e1 != nil || e2 != nil {
+				break
+			}
+			var fail *fw.Fail
+			func() {
+				defer func() {
+					if x := recover(); x != nil {
+						fail = fw.Failf("options never make a call panic", "a failing output writer: %v", x)
+					}
+				}()
+				bl1, bi1, x1 := bcl.Execute(p1, bcl.OptOutput(&limitedWriter{room: room}))
+				bl2, bi2, x2 := bcl.Execute(p2, bcl.OptTrace(true), bcl.OptStats(true), bcl.OptOutput(&limitedWriter{room: room}))
+				a := fmt.Sprintf("err=%v blocks=%s binding=%s", x1, impl.BlocksStr(bl1), impl.BindingStr(bi1))
+				b := fmt.Sprintf("err=%v blocks=%s binding=%s", x2, impl.BlocksStr(bl2), impl.BindingStr(bi2))
+				if a != b {
+					fail = fw.Failf(fmt.Sprintf("with an output writer that fails after %d bytes, trace and statistics do not change error, blocks or binding: %s", room, fw.Trunc(a, 300)), "%s", fw.Trunc(b, 300))
+				}
+			}()
+			if fail != nil {
+				return fail
+			}
+		}
+	}
 	// structure of the listings, against the independent decoder and the reference VM
 	dp, _, _, status := compileDecode(src)
 	if status == "rejected" {
@@ -307,7 +371,7 @@ func init() {
 			"Oracle: blocks, binding, error text and diagnostics identical to the option-free run; no panic; after deleting the lines a strict grammar recognises as header / disassembly / stack / statistics lines the output equals the option-free output; " +
 			"the disassembly lists exactly the independent decoder's instruction starts once each in order; the trace's instruction offsets equal the reference VM's executed pc sequence, one stack line each, and their number equals xstats.opsRead.",
 		Subs:           []*fw.Sub{subC19},
-		BudgetQuick:    100,
+		BudgetQuick:    170,
 		BudgetThorough: 1500,
 		Run: func(c *fw.Ctx) {
 			do := func(src, shard string) bool {
